@@ -148,9 +148,13 @@ def _wrap_fn(
     # create arg schema
     for key, param in sig.parameters.items():
         annotation = param.annotation
+        # an override is enough to have an argument checked, annotated or not
+        checked = (
+            annotation != param.empty or key in overrides
+        ) and key not in ignore_args
         if param.kind == param.POSITIONAL_ONLY:
             positional_args_names.add(key)
-            if annotation == param.empty or key in ignore_args:
+            if not checked:
                 positional_validators.append(None)
             else:
                 positional_validators.append(
@@ -158,7 +162,7 @@ def _wrap_fn(
                 )
         elif param.kind == param.POSITIONAL_OR_KEYWORD:
             positional_args_names.add(key)
-            if annotation == param.empty or key in ignore_args:
+            if not checked:
                 positional_validators.append(None)
                 schema[key] = None
             else:
@@ -166,18 +170,20 @@ def _wrap_fn(
                 positional_validators.append((key, validator))
                 schema[key] = validator
         elif param.kind == param.VAR_POSITIONAL:
-            if annotation != param.empty and key not in ignore_args:
+            if checked:
                 var_args_key_and_validator = key, _get_validator_partial(key, annotation)
         elif param.kind == param.KEYWORD_ONLY:
-            if annotation != param.empty and key not in ignore_args:
+            if checked:
                 schema[key] = _get_validator_partial(key, annotation)
             else:
                 schema[key] = None
         elif param.kind == param.VAR_KEYWORD:
-            if annotation != param.empty and key not in ignore_args:
+            if checked:
                 kwargs_validator = _get_validator_partial(key, annotation)
 
-    if not ignore_return and sig.return_annotation != sig.empty:
+    if not ignore_return and (
+        sig.return_annotation != sig.empty or RETURN_OVERRIDE_KEY in overrides
+    ):
         return_validator: Optional[Validator[Any]] = _get_validator_partial(
             RETURN_OVERRIDE_KEY, sig.return_annotation
         )
